@@ -1122,3 +1122,194 @@ def c09_expr_ab_cases(quick=True):
     for src in AB_EXPR_SCRIPTS:
         res.append((src, ["reset", "script m %s" % src.encode().hex(), "callv m t0"] + ["step 50", "step 75"] * 9 + ["step 125"] * 4 + ["step 1000"]))
     return res
+
+
+# ---------------------------------------------------------------------------------------------
+# C06: one huge single clock advance (a suspended host) before waits whose frames straddle the due time
+
+# values around the limits of exact integers in binary32 / of 32-bit arithmetic; odd ones and ones that
+# are not a multiple of the float spacing at their magnitude (2 above 2^24, 4 above 2^25, 256 above 2^31 …)
+HUGE_ADVANCES = [2 ** 24 - 1, 2 ** 24 + 1, 2 ** 24 + 3, 2 ** 25 + 1, 2 ** 25 + 2, 2 ** 25 + 3, 123456789, 2 ** 31 - 1, 2 ** 31 + 1,
+                 2 ** 31 + 129, 2 ** 32 - 1, 2 ** 32 + 1, 2 ** 32 + 257, 2 ** 33 + 513, 2 ** 40 + 1, 3 * 2 ** 24 + 5, 10 ** 12 + 1]
+
+
+def _straddle(d):
+    """frames one millisecond before, on and after a due time `d` ms from now (d >= 2)"""
+    return ["step %d" % (d - 1), "step 1", "step 1"]
+
+
+def huge_advance_family(quick=True):
+    """The injected clock jumps once by a huge amount (2^24±1, ±3, 2^31±1, 2^32+1 …), then a thread waits
+    `d` and the frames land at due-1 / due / due+1; again for a second wait.  Shapes: (0) nothing alive
+    during the jump, the thread is started after it; (1) a thread sleeps across the jump (it resumes in that
+    frame) and waits again; (2) two jumps in a row; (3) `advance` + `execute` instead of `step`, the thread
+    being started between the two; (4) three threads with different durations after the jump."""
+    cases = []
+    durs = [125, 250] if quick else [125, 250, 50, 700, 1000]
+    for H in (HUGE_ADVANCES if not quick else HUGE_ADVANCES[:13]):
+        for d in durs:
+            d1 = engine_ms(d)
+            d2 = engine_ms(250 if d != 250 else 125)
+            worker = [("mark", 1), ("wait", d), ("mark", 2), ("wait", 250 if d != 250 else 125), ("mark", 3)]
+            tail = _straddle(d1) + ["step %d" % (d2 - 2), "step 1", "step 1", "step 1000", "thread-result"]
+            sl = script_line([worker])
+            cases.append(["reset", sl, "step %d" % H, "call m t0"] + tail)
+            sleeper = [("mark", 1), ("wait", 500)] + worker[1:]
+            cases.append(["reset", script_line([sleeper]), "call m t0", "step 125", "step %d" % H] + tail)
+            if not quick or d == 125:
+                cases.append(["reset", sl, "step %d" % H, "step %d" % (H + 2), "call m t0"] + tail)
+                cases.append(["reset", sl, "advance %d" % H, "call m t0", "execute"] + tail)
+                three = [[("mark", 1), ("thread", 1), ("thread", 2), ("wait", d), ("mark", 2)],
+                         [("mark", 10), ("wait", 2 * d), ("mark", 11)], [("mark", 20), ("wait", d), ("mark", 21), ("wait", d), ("mark", 22)]]
+                cases.append(["reset", script_line(three), "step 50", "step %d" % H, "call m t0"] + _straddle(d1) + ["step %d" % (d1 - 2), "step 1", "step 1", "step 1000"])
+    return cases
+
+
+def gen_huge_case(rng):
+    """random timer program; somewhere in the schedule one huge advance (from the list, or a random odd
+    value up to 2^34); afterwards the frames land at k*125-1, k*125, k*125+1 (the generator's durations are
+    multiples of 125 ms), host calls in between"""
+    prog = gen_timer_prog(rng)
+    lines = ["reset", script_line(prog)]
+    if rng.random() < 0.5:
+        lines.append("call m t0")
+        for _ in range(rng.randint(0, 3)):
+            lines.append("step %d" % rng.choice(STEPS))
+    H = rng.choice(HUGE_ADVANCES) if rng.random() < 0.6 else (rng.randrange(2 ** 24, 2 ** 34) | 1)
+    lines.append("step %d" % H)
+    lines.append("call m t%d" % rng.randrange(len(prog)))
+    for k in range(rng.randint(2, 6)):
+        lines += ["step 123" if k else "step 124", "step 1", "step 1"]
+        if rng.random() < 0.3:
+            lines.append("call m t%d" % rng.randrange(len(prog)))
+        if rng.random() < 0.1:
+            lines.append("step %d" % (rng.choice(HUGE_ADVANCES) + 125 - 1))
+            lines += ["step 1", "step 1"]
+    lines += ["step 1000", "step 1000", "thread-result"]
+    return lines
+
+
+# ---------------------------------------------------------------------------------------------
+# C07 (engine-only, with a reference oracle): one thread waiting for the same event name on SEVERAL objects
+# at once — `($o1::$o2) waittill "go"`: the waittill command runs on each receiver in turn.  The machine has
+# no multi-object waittill, so the expected answers come from the small oracle below, which is the property
+# read literally: a thread registered on an object under a name when that name is notified there proceeds
+# exactly once, at once (nested inside the notify, in registration order), and its other registrations are
+# cancelled; removing any object it waits on destroys it; a notify / delete of a removed object is a script
+# error (statement skipped).
+
+MULTI_CFGS = [
+    # waiter name -> (receivers, event)
+    [("W", (1, 2), "go")],
+    [("W", (1, 2), "go"), ("V", (2, 3), "go")],
+    [("U", (1,), "go")],                                            # control: one object
+    [("W", (1, 2), "go"), ("U", (1,), "go"), ("X", (2, 1), "go")],
+    [("W", (1, 2, 3), "go")],
+    [("W", (1, 2), "go"), ("Y", (1, 2), "other")],
+    [("U", (1,), "go"), ("Q", (2,), "go")],                          # control: two single-object waiters
+]
+
+
+def multi_actions(maxlen, objs=(1, 2)):
+    import itertools
+    acts = [(k, o) for o in objs for k in ("N", "D")]
+    res = []
+    for n in range(1, maxlen + 1):
+        res += [list(p) for p in itertools.product(acts, repeat=n)]
+    return res
+
+
+def _recv(objs):
+    return "$o%d" % objs[0] if len(objs) == 1 else "(" + "::".join("$o%d" % o for o in objs) + ")"
+
+
+def _act_stmt(a):
+    return '$o%d notify "go"' % a[1] if a[0] == "N" else "$o%d delete" % a[1]
+
+
+def multi_script(cfg, actions, inline):
+    out = ["t0:"] + ['local.sp%d = spawn SimpleEntity targetname "o%d"' % (o, o) for o in (1, 2, 3)]
+    out += ["thread w%d" % i for i in range(len(cfg))]
+    out.append('println "S"')
+    if inline:
+        for k, a in enumerate(actions):
+            out += [_act_stmt(a), 'println "M%d"' % k]
+    out.append("end")
+    for i, (name, objs, ev) in enumerate(cfg):
+        out += ["w%d:" % i, '%s waittill "%s"' % (_recv(objs), ev), 'println "%s"' % name, "end"]
+    if not inline:
+        for k, a in enumerate(actions):
+            out += ["a%d:" % k, 'println "A%d"' % k, _act_stmt(a), 'println "B%d"' % k, "end"]
+    out += ["fin:"] + ['$o%d notify "go"\nprintln "F%d"' % (o, o) for o in (1, 2, 3)] + ['$o%d notify "other"\nprintln "G%d"' % (o, o) for o in (1, 2, 3)] + ["end"]
+    return "\n".join(out) + "\n"
+
+
+class MultiOracle:
+    def __init__(self, cfg):
+        self.alive = {1, 2, 3}
+        # registrations in the order the engine makes them: waiter by waiter, receiver by receiver
+        self.wait = [(name, list(objs), ev) for name, objs, ev in cfg]      # still waiting
+
+    def notify(self, o, ev):
+        """markers printed by the released waiters, in registration order on `o`"""
+        if o not in self.alive:
+            return []
+        rel = [w for w in self.wait if o in w[1] and w[2] == ev]
+        self.wait = [w for w in self.wait if w not in rel]
+        return [w[0] for w in rel]
+
+    def delete(self, o):
+        if o not in self.alive:
+            return
+        self.alive.discard(o)
+        self.wait = [w for w in self.wait if o not in w[1]]
+
+    def act(self, a):
+        if a[0] == "N":
+            return self.notify(a[1], "go")
+        self.delete(a[1])
+        return []
+
+    def fin(self):
+        out = []
+        for ev, tag in (("go", "F"), ("other", "G")):
+            for o in (1, 2, 3):
+                out += self.notify(o, ev) + ["%s%d" % (tag, o)]
+        return out
+
+
+def multi_case(cfg, actions, inline):
+    """(lines, expected) — expected[i] = (markers printed by line i, number of live threads after it) or None"""
+    src = multi_script(cfg, actions, inline)
+    orc = MultiOracle(cfg)
+    lines = ["reset", "script m %s" % src.encode().hex(), "call m t0"]
+    exp = [None, None]
+    if inline:
+        out = ["S"]
+        for k, a in enumerate(actions):
+            out += orc.act(a) + ["M%d" % k]
+        exp.append((out, len(orc.wait)))
+    else:
+        exp.append((["S"], len(orc.wait)))
+        for k, a in enumerate(actions):
+            lines.append("call m a%d" % k)
+            exp.append((["A%d" % k] + orc.act(a) + ["B%d" % k], len(orc.wait)))
+            lines.append("step 50")
+            exp.append(([], len(orc.wait)))
+    lines.append("call m fin")
+    exp.append((orc.fin(), 0))
+    lines.append("step 1000")
+    exp.append(([], 0))
+    return lines, exp
+
+
+def multi_family(quick=True):
+    cases = []
+    for ci, cfg in enumerate(MULTI_CFGS):
+        objs = (1, 2, 3) if any(3 in w[1] for w in cfg) else (1, 2)
+        for actions in multi_actions(2 if (quick or len(objs) == 3) else 3, objs) + ([] if len(objs) == 3 or not quick else [a for a in multi_actions(3) if len(a) == 3][::3]):
+            for inline in (True, False):
+                lines, exp = multi_case(cfg, actions, inline)
+                desc = "cfg%d %s %s" % (ci, " ".join("%s%d" % a for a in actions), "inline" if inline else "host")
+                cases.append((desc, lines, exp))
+    return cases
